@@ -26,10 +26,17 @@ func init() {
 			for op := 0; op <= 1; op++ {
 				r = append(r, Oblig{Harness: "vh_C03_shift", Globals: map[string]int{"vhOp": op}, Unroll: 70, MaxPaths: 1000})
 			}
+			// typed folding: every integer kind x every operator
+			for _, k := range intKinds {
+				for op := 0; op <= 11; op++ {
+					r = append(r, Oblig{Harness: "vh_C03_fold_typed", Globals: map[string]int{"vhKind": k, "vhOp": op}, Unroll: 80, MaxPaths: 2000})
+				}
+			}
 			return r
 		},
-		Bounds:      []string{"integer constants of unbounded magnitude (SMT Int)", "all 11 integer kinds", "shift counts 0..64", "strings: any ASCII string"},
-		Assumptions: []string{"go/constant modelled exactly on Int/String/Bool kinds; Float/Complex constants opaque", "reflect modelled on basic kinds (engine reflect model)", "folding checked on untyped operands"},
-		Outside:     []string{"float/complex representability and rounding", "iota and implicit repetition", "default types", "typed-constant overflow after folding (checked in cfg.go's binaryExpr, not encodable)", "bitwise operators on constants outside [0, 2^64)", "len of constant arrays"},
+		Redirects: map[string]string{"(*" + interpPath + ".node).cfgErrorf": "vmCfgErrorf"},
+		Bounds:      []string{"integer constants of unbounded magnitude (SMT Int)", "all 11 integer kinds", "shift counts 0..64 (untyped) / 0..70 (typed)", "typed folding: all operand values of each of the 11 integer kinds", "strings: any ASCII string"},
+		Assumptions: []string{"go/constant modelled exactly on Int/String/Bool kinds; Float/Complex constants opaque", "reflect modelled on basic kinds (engine reflect model)", "typed folding: the harness repeats cfg.go's sequence fold-then-constOverflow; cfgErrorf replaced by a model (the message is not part of the property)"},
+		Outside:     []string{"float/complex representability and rounding", "iota and implicit repetition", "default types", "typed float constant overflow", "the call site of constOverflow in cfg.go", "bitwise operators on constants outside [0, 2^64)", "len of constant arrays"},
 	}
 }
